@@ -41,9 +41,63 @@ func intRoots(info *types.Info, e ast.Expr, out map[types.Object]*ast.Ident) {
 	})
 }
 
+// expandCopies adds, for every root that is a local variable assigned exactly
+// once by a plain copy (`bins := int(count)`, `n := count`: an identifier,
+// possibly converted, no arithmetic), the roots of the copied expression: a
+// range check of the original is a range check of the copy.
+func (c *Ctx) expandCopies(info *types.Info, n ast.Node, roots map[types.Object]*ast.Ident) {
+	encl := c.EnclosingFunc(n)
+	if encl == nil {
+		return
+	}
+	for round := 0; round < 3; round++ {
+		added := false
+		for obj := range roots {
+			if countAssignments(info, encl, obj) != 1 {
+				continue
+			}
+			ast.Inspect(encl, func(x ast.Node) bool {
+				as, ok := x.(*ast.AssignStmt)
+				if !ok || len(as.Lhs) != len(as.Rhs) || (as.Tok != token.DEFINE && as.Tok != token.ASSIGN) {
+					return true
+				}
+				for i, l := range as.Lhs {
+					id, isID := l.(*ast.Ident)
+					if !isID || info.ObjectOf(id) != obj {
+						continue
+					}
+					e := ast.Unparen(as.Rhs[i])
+					if call, isCall := e.(*ast.CallExpr); isCall && len(call.Args) == 1 {
+						if tv, ok := info.Types[call.Fun]; ok && tv.IsType() {
+							e = ast.Unparen(call.Args[0])
+						}
+					}
+					src, isSrc := e.(*ast.Ident)
+					if !isSrc {
+						continue
+					}
+					if v, ok := info.ObjectOf(src).(*types.Var); ok {
+						if _, isBasic := v.Type().Underlying().(*types.Basic); isBasic {
+							if _, have := roots[v]; !have {
+								roots[v] = src
+								added = true
+							}
+						}
+					}
+				}
+				return true
+			})
+		}
+		if !added {
+			return
+		}
+	}
+}
+
 // rangeGuarded: some variable of the roots is compared with a constant on
 // every path to n.
 func (c *Ctx) rangeGuarded(info *types.Info, n ast.Node, roots map[types.Object]*ast.Ident) bool {
+	c.expandCopies(info, n, roots)
 	for _, gd := range c.GuardsDeep(n) {
 		be, ok := ast.Unparen(gd.Cond).(*ast.BinaryExpr)
 		if !ok {
